@@ -41,6 +41,23 @@ CHECKS = {
             'deterministic simulation: schedule search + hostile-peer fault '
             'injection, reference window model over tap history, quiescence '
             'liveness', 'DESIGN.md 4 C08'),
+    'C09': ('c09_termination',
+            'Seeded exploration of concurrent channel programs (callback '
+            'sessions, direct-tcpip, process API, SFTP client, remote-forward '
+            'request) by both sides with one fault per run: TCP reset/EOF '
+            'after any packet or byte of either direction from the version '
+            'exchange on, permanent stall under keepalive, close/abort/'
+            'disconnect by either side at a drawn moment, cancellation of a '
+            'caller. Quiescence in a simulator decides "never completes": '
+            'once the connection is gone every tracked await must be done, '
+            'each session log must match made (started)? ... lost with lost '
+            'once and last, owners likewise, no channel registered, no task '
+            'or transport left.',
+            COMMON_NOTE + ' Reads conn._channels and asyncio.all_tasks() to '
+            'detect residue.',
+            'deterministic simulation: crash-point (connection cut) and '
+            'schedule search, quiescence-based hang detection, callback '
+            'grammar oracle', 'DESIGN.md 4 C09'),
 }
 
 NOT_YET = {}
